@@ -3,6 +3,7 @@
 import os, sys
 sys.path.insert(0, os.path.join(os.path.dirname(os.path.abspath(__file__)), "..", "tools"))
 import vlib
+import translate_bitmanip
 
 
 def signature(msg, case_lines):
@@ -18,6 +19,8 @@ vlib.standard_check({
     "prop_module": "GateryModel.Properties.C18",
     "exe": "gv_c18",
     "harness": "c18",
+    "translators": [translate_bitmanip.run],
+    "gen_files": ["lean/GateryModel/Gen/BitManip.lean"],
     "streams": {"quick": [[2000, 50]], "thorough": [[20000, 50], [2000, 400], [20000, 12]]},
     "search": [[20000, 50], [5000, 200]],
     "signature": signature,
